@@ -104,6 +104,7 @@ static const char *g_fault_path = ".jnl";
 static int g_fault_errno = EIO;
 static long g_fault_short = -1;
 static int g_fault_sticky;
+static int g_fault_short_transient; /* a short write is not followed by a failing call (e.g. an interrupted write) */
 static long g_fault_delay_ms; /* the failing call sleeps this long (mutex released) before reporting the error */
 
 static long g_count;       /* events seen */
@@ -239,6 +240,7 @@ static void do_init(void)
     g_fault_short = env_long("FJSHIM_FAULT_SHORT", -1);
     g_fault_sticky = env_long("FJSHIM_FAULT_STICKY", 0) != 0;
     g_fault_delay_ms = env_long("FJSHIM_FAULT_DELAY_MS", 0);
+    g_fault_short_transient = env_long("FJSHIM_FAULT_SHORT_TRANSIENT", 0) != 0;
     s = getenv("FJSHIM_FAULT_PATH");
     if (s)
         g_fault_path = s; /* empty string matches every path */
@@ -653,7 +655,7 @@ static int ev_begin(ev_t *ev, const char *call, int cls, long long off, long lon
             if (g_fault_short >= 0 && cls == C_WRITE && len > g_fault_short) {
                 ev->act = A_SHORT;
                 ev->k = (size_t)g_fault_short;
-                g_short_pending = 1;
+                g_short_pending = g_fault_short_transient ? 0 : 1;
             } else {
                 ev->act = A_FAIL;
             }
